@@ -36,6 +36,8 @@ pub enum E {
     Pipe(Box<E>, Box<E>, Site),
     /// redundant parentheses (layout only)
     Paren(Box<E>),
+    /// raw source text (near-miss mutants; no reference semantics)
+    Raw(String),
 }
 
 #[derive(Clone, Debug, PartialEq)]
@@ -217,6 +219,7 @@ pub fn pe(e: &E, ind: usize) -> String {
         E::Delay(n, x, t, _) => format!("delay({}, {}, {})", fmt_num(*n), pe(x, ind), pe(t, ind)),
         E::Pipe(a, f, _) => format!("{} |> {}", pa(a, ind), pa(f, ind)),
         E::Paren(a) => format!("({})", pe(a, ind)),
+        E::Raw(t) => t.clone(),
     }
 }
 pub fn pfn(f: &FnDef) -> String {
@@ -659,6 +662,7 @@ impl<'p> Interp<'p> {
                 V::F(if k >= d { h[k - d] } else { 0.0 })
             }
             E::Paren(a) => self.eval(a, env, node, selfv)?,
+            E::Raw(_) => return Err(EvalErr::Undefined("raw text".into())),
         })
     }
 }
